@@ -149,6 +149,11 @@ def events_rules(ctx, engine, f, ip):
     for ev in ip.events:
         if ev.kind == "attr":
             base, attr = ev.data
+            if base.types is not None and "ctorfield" in base.flags and "?" in base.types and (base.types - {"?"}):
+                # a lower bound: these classes ARE stored in the field (constructed at call sites of the package);
+                # whatever else may be stored does not make them go away
+                from ..kinds import AV
+                base = AV(set(base.types) - {"?"}, flags=set(base.flags) | {"prog"})
             if not known(base):
                 continue
             n_attr += 1
